@@ -5,15 +5,32 @@
     This file holds only statements closed by lemmas of Proofs.v, the axiom audit
     and non-vacuity examples. *)
 From Coq Require Import List Arith Lia Bool.
-From Verif Require Import Lib.LTS C10.Spec C10.Model C10.Proofs.
+From Verif Require Import Lib.LTS C10.Spec C10.Model C10.Proofs C10.ProofsLim.
 Import ListNotations.
 
 (** The recorded history of every run satisfies the whole specification: the
     executable judge that the harness applies to real histories accepts it. *)
-Theorem c10_spec_ok : forall c sch s, run_c c init sch = Some s ->
+Theorem c10_spec_ok : forall c sch s, lims c = no_limits -> run_c c init sch = Some s ->
   spec_ok (nprocs c) (hist s) = true.
-Proof. intros c sch s H. apply spec_ok_holds. eapply run_reach; eauto. Qed.
+Proof. intros c sch s Hu H. apply spec_ok_holds; [exact Hu | eapply run_reach; eauto]. Qed.
 Print Assumptions c10_spec_ok.
+
+(** The same under span limits: for ALL attribute / event / link count limits (0, any n, unlimited), ALL
+    configurations and schedules, the history (each event paired with the drop counts of the final state,
+    which are those of every delivery) satisfies the limit specification the harness applies to real
+    histories: per kind, present + dropped lies between the parts offered by calls returned before the first
+    End was invoked and by calls invoked before the end was visible; at most [limit] present and exactly
+    [limit] if anything was dropped; a call's kept parts are a prefix of what it offered; a kind that
+    dropped nothing obeys the unlimited atomic/present rules; one snapshot and one set of drop counts for
+    all deliveries.  And after the end the drop counts never change. *)
+Theorem c10_spec_lim_ok : forall c sch s, run_c c init sch = Some s ->
+  spec_lim_ok (lims c) (nprocs c) (lim_hist s) = true /\
+  (endt s <> 0 -> forall sch' s', run_c c s sch' = Some s' -> drops s' = drops s /\ mk_snap s' = mk_snap s).
+Proof.
+  intros c sch s H. pose proof (run_reach _ _ _ _ H) as Hr. split; [now apply lim_spec_holds|].
+  intros He sch' s' H'. split; [eapply drops_frozen; eauto | eapply ended_is_frozen; eauto].
+Qed.
+Print Assumptions c10_spec_lim_ok.
 
 (** The judge decides the Prop reading of the specification (so a real history it
     accepts satisfies every clause below, and one it rejects violates one). *)
@@ -35,7 +52,7 @@ Theorem c10_end_once : forall c sch s, run_c c init sch = Some s ->
    forall p, p < nprocs c -> countb (is_onend_of p) (hist s) = 1).
 Proof.
   intros c sch s H. pose proof (run_reach _ _ _ _ H) as Hr.
-  pose proof (spec_holds c s Hr) as HS. pose proof (final_holds c s Hr) as HF.
+  pose proof (specw_holds c s Hr) as HS. pose proof (final_holds c s Hr) as HF.
   repeat split.
   - intros p. now apply (Spec_once (nprocs c)).
   - intros p sn. now apply Spec_registered.
@@ -54,7 +71,7 @@ Print Assumptions c10_end_once.
 (** Mutations are atomic with respect to the delivered snapshot: every mutator's parts
     are wholly present (and then it was invoked before the end became visible) or wholly
     absent; one that returned before the first End was invoked is present. *)
-Theorem c10_mutation_atomic : forall c sch s, run_c c init sch = Some s ->
+Theorem c10_mutation_atomic : forall c sch s, lims c = no_limits -> run_c c init sch = Some s ->
   forall past p sn fut, hist s = past ++ EvOnEnd p sn :: fut ->
   (forall m, parts_of m (sn_parts sn) = [] \/
              exists k n, In (EvCall m (OMut k n)) (cut past) /\ is_log k = true /\
@@ -63,8 +80,8 @@ Theorem c10_mutation_atomic : forall c sch s, run_c c init sch = Some s ->
                    parts_of m (sn_parts sn) = full m (nparts (OMut k n))) /\
   reg_ok KName (sn_name sn) past = true /\ reg_ok KStatus (sn_status sn) past = true.
 Proof.
-  intros c sch s H past p sn fut E. pose proof (run_reach _ _ _ _ H) as Hr.
-  pose proof (spec_holds c s Hr) as HS. rewrite E in HS. pose proof (Spec_snap _ _ _ _ _ HS) as Hsn.
+  intros c sch s Hu H past p sn fut E. pose proof (run_reach _ _ _ _ H) as Hr.
+  pose proof (spec_holds c Hu s Hr) as HS. rewrite E in HS. pose proof (Spec_snap _ _ _ _ _ HS) as Hsn.
   split; [|split].
   - intros m. now apply snap_atomic.
   - intros m k n r. now apply snap_present.
@@ -92,7 +109,7 @@ Theorem c10_not_recording_after_end : forall c sch s, run_c c init sch = Some s 
   (r = true -> In (EvCall t OIsRec) (cut past)) /\ (r = false -> has_end_call past = true).
 Proof.
   intros c sch s H past t r fut E. pose proof (run_reach _ _ _ _ H) as Hr.
-  pose proof (spec_holds c s Hr) as HS. rewrite E in HS. eapply Spec_isrec; eauto.
+  pose proof (specw_holds c s Hr) as HS. rewrite E in HS. eapply Spec_isrec; eauto.
 Qed.
 Print Assumptions c10_not_recording_after_end.
 
@@ -103,7 +120,7 @@ Theorem c10_child_count_exact : forall c sch s, run_c c init sch = Some s ->
   countb is_child_ret (pre_end past) <= sn_children sn <= countb is_child_call (cut past).
 Proof.
   intros c sch s H past p sn fut E. pose proof (run_reach _ _ _ _ H) as Hr.
-  pose proof (spec_holds c s Hr) as HS. rewrite E in HS. apply snap_children. eapply Spec_snap; eauto.
+  pose proof (specw_holds c s Hr) as HS. rewrite E in HS. eapply SpecW_children; eauto.
 Qed.
 Print Assumptions c10_child_count_exact.
 
@@ -126,7 +143,8 @@ Print Assumptions c10_end_once_prefix_refuted.
     is accepted; and a bad history is rejected by the judge. *)
 Definition ex_cfg : cfg :=
   {| nprocs := 2;
-     prog := fun t => nth_error [OEnd; OMut KAttr 2; OEnd; OChild; OIsRec; OMut KName 0] t |}.
+     prog := fun t => nth_error [OEnd; OMut KAttr 2; OEnd; OChild; OIsRec; OMut KName 0] t;
+     lims := no_limits |}.
 Definition ex_sched : list nat :=
   [1;0;2;3;4;5; 1;1;1;1;1;1; 3;3;3; 0;0; 2;2; 4;4;4; 5;5;5; 0;0;0;0;0;0;0;0; 2].
 Example ex_run :
@@ -142,6 +160,16 @@ Proof.
   repeat split; try reflexivity.
   apply complete_b_Complete. vm_compute. reflexivity.
 Qed.
+(** Under limits: attribute limit 1, event limit 0 - the second attribute and the event are counted
+    as dropped, the history is accepted by the limit judge. *)
+Example ex_run_limits :
+  let c := {| nprocs := 1; prog := fun t => nth_error [OMut KAttr 2; OMut KEvent 1; OEnd] t;
+              lims := {| lim_attr := Some 1; lim_event := Some 0; lim_link := None |} |} in
+  exists s, run_c c init [0;0;0;0;0;0;0; 1;1;1;1;1;1; 2;2;2;2;2;2;2;2;2;2] = Some s /\
+            drops s = {| d_attr := 1; d_event := 1; d_link := 0 |} /\ parts s = [(0, 0)] /\
+            spec_lim_ok (lims c) 1 (lim_hist s) = true.
+Proof. eexists. split; [vm_compute; reflexivity|]. vm_compute. auto. Qed.
+
 Example ex_double_delivery_rejected :
   let sn := {| sn_parts := []; sn_name := None; sn_status := None; sn_et := 1; sn_children := 0 |} in
   spec_ok 1 [EvCall 0 OEnd; EvCall 1 OEnd; EvOnEnd 0 sn; EvOnEnd 0 sn; EvRet 0 OEnd false; EvRet 1 OEnd false] = false.
